@@ -39,9 +39,10 @@ def correspondence(ctx):
     rng = ctx.rng
     cases = []
     nrec = 400 if ctx.tier == "quick" else 4000
-    for _ in range(nrec):
-        r = chargen.gen_recipe(rng)
-        b = rng.choice(chargen.BUDGETS)
+    many = chargen.many_sets_recipes()
+    for k in range(nrec + len(many)):
+        r = many[k - nrec] if k >= nrec else chargen.gen_recipe(rng)
+        b = rng.choice(chargen.BUDGETS) if k < nrec else chargen.DEFAULT_BUDGET
         for words, feat in chargen.make_tapes(rng, r, b, want=3):
             meta = {"recipe": r.to_json(), "budget": b, "words": words if len(words) <= 64 else words[:64] + ["..."], "features": feat}
             meta["_recipe"] = r
@@ -101,6 +102,8 @@ def compare_recipes(ctx, cases, family="recipe"):
             why = "missing/panic"
         else:
             da, db = kv(a), kv(b)
+            if "BEYOND-LEN-CHANGED" in a:
+                why = "a call wrote into the caller's table beyond the length of RequireSets"
             for k in ("alphabet", "count", "stable"):
                 if da.get(k) != db.get(k):
                     why = k
